@@ -271,7 +271,7 @@ def _worker(job):
 def scope(tier: str):
     if tier == "quick":
         return {"depths": [1, 2], "max_rows": 3, "cap": 40, "per_spec": {1: 3, 2: 1, 3: 0}}
-    return {"depths": [1, 2, 3], "max_rows": 4, "cap": 64, "per_spec": {1: 6, 2: 2, 3: 1}}
+    return {"depths": [1, 2, 3], "max_rows": 4, "cap": 64, "per_spec": {1: 6, 2: 1, 3: 1}}
 
 
 def make_cases(tier: str, seed: int):
@@ -284,8 +284,11 @@ def make_cases(tier: str, seed: int):
     for depth in sc["depths"]:
         per = sc["per_spec"][depth]
         for spec in C.gen_pipelines(depth, tier, two_table=True, backends=BACKENDS):
-            for j in range(per):
-                cases.append((spec, good[(idx * 3 + seed * 5 + j * 7) % len(good)]))
+            # quick tier: every second operator pair (which half is chosen by the seed); thorough: all pairs and
+            # every second triple of the reduced grid
+            if not ((tier == "quick" and depth >= 2 and (idx + seed) % 2 == 1) or (tier != "quick" and depth >= 3 and (idx + seed) % 2 == 1)):
+                for j in range(per):
+                    cases.append((spec, good[(idx * 3 + seed * 5 + j * 7) % len(good)]))
             idx += 1
     return sc, cases
 
